@@ -322,6 +322,15 @@ func c08read(c *wk.Ctx, idx, mi int, stream []byte, msgs [][]byte, segs []int, k
 		c.Viol("C08", idx, "detect/wrong-mode/"+md.name, fmt.Sprint(v), nil)
 		return
 	}
+	var held [][]byte
+	defer func() {
+		for i := range held {
+			if i < len(msgs) && !bytes.Equal(held[i], msgs[i]) {
+				c.Viol("C08", idx, "read/earlier-message-overwritten/"+md.name, fmt.Sprintf("message %d of %d (len %d) changed after later messages were read (the returned slice aliases an internal buffer)", i, len(msgs), len(msgs[i])), nil)
+				return
+			}
+		}
+	}()
 	for i, want := range msgs {
 		var got []byte
 		pan, pm, st = wk.Guard(func() { got, err = m.ReadMsg() })
@@ -337,6 +346,7 @@ func c08read(c *wk.Ctx, idx, mi int, stream []byte, msgs [][]byte, segs []int, k
 			c.Viol("C08", idx, "read/wrong-message/"+md.name+"/"+kind, fmt.Sprintf("message %d: got %d bytes, want %d", i, len(got), len(want)), nil)
 			return
 		}
+		held = append(held, got)
 	}
 	var got []byte
 	pan, pm, st = wk.Guard(func() { got, err = m.ReadMsg() })
